@@ -78,7 +78,7 @@ func vhBytesEqual(a, b []byte, n int, what string) {
 
 // C11: reference lists with and without the primary namespace.
 //
-//vh:steps=3000000 split=4
+//vh:steps=3000000
 func VH_C11_References() {
 	primary := TypeAndNamespace(vU16("primary"))
 	n := vChoice("n", 3+vTier())
@@ -101,7 +101,7 @@ func VH_C11_References() {
 
 // C11: reference lists with unconstrained 64-bit values (every varint length).
 //
-//vh:tier=thorough steps=3000000 split=4
+//vh:tier=thorough steps=3000000
 func VH_C11_ReferencesFull() {
 	primary := TypeAndNamespace(vU16("primary"))
 	n := vChoice("n", 3)
@@ -120,7 +120,7 @@ func VH_C11_ReferencesFull() {
 
 // C11: lat/lng lists (E7 int32 pairs, deltas wrap).
 //
-//vh:steps=3000000 split=3
+//vh:steps=3000000
 func VH_C11_LatLngs() {
 	n := vChoice("n", 3+vTier())
 	lls := make(LatLngs, n)
@@ -151,7 +151,7 @@ func VH_C11_LatLngs() {
 
 // C11: mixed reference / lat-lng lists.
 //
-//vh:steps=3000000 split=4
+//vh:steps=3000000
 func VH_C11_ReferencesAndLatLngs() {
 	primary := TypeAndNamespace(vU16("primary"))
 	n := vChoice("n", 3+vTier())
@@ -186,7 +186,6 @@ func VH_C11_ReferencesAndLatLngs() {
 
 // C11: bit sets.
 //
-//vh:split=4
 func VH_C11_Bits() {
 	n := vChoice("n", 10+4*vTier()) // 0..9 (quick) / 0..13 bits: crosses the byte boundary
 	b := make(Bits, n)
@@ -209,7 +208,7 @@ func VH_C11_Bits() {
 
 // C11: relation members.
 //
-//vh:steps=3000000 split=4
+//vh:steps=3000000
 func VH_C11_Members() {
 	primary := TypeAndNamespace(vU16("primary"))
 	n := vhSize("n", 2, 2)
@@ -246,7 +245,7 @@ func VH_C11_Members() {
 
 // C11: area geometry by path references (polygon boundaries + path list).
 //
-//vh:steps=3000000 split=4
+//vh:steps=3000000
 func VH_C11_AreaGeometryReferences() {
 	primary := TypeAndNamespace(vU16("primary"))
 	np := vhSize("paths", 2, 3)
@@ -318,7 +317,7 @@ func vhPolygonLatLngsEqual(a, b *PolygonGeometryLatLngs, what string) {
 
 // C11: area geometry by lat/lng loops.
 //
-//vh:steps=3000000 split=4
+//vh:steps=3000000
 func VH_C11_AreaGeometryLatLngs() {
 	n := vhSize("polygons", 2, 2)
 	a := &AreaGeometryLatLngs{}
@@ -343,7 +342,7 @@ func VH_C11_AreaGeometryLatLngs() {
 
 // C11: mixed area geometry.
 //
-//vh:steps=3000000 split=4
+//vh:steps=3000000
 func VH_C11_AreaGeometryMixed() {
 	primary := TypeAndNamespace(vU16("primary"))
 	n := vChoice("polygons", 3)
@@ -458,7 +457,7 @@ func vhTagsEqual(a, b Tags, what string) {
 
 // C11: tags with string, point and path values.
 //
-//vh:steps=3000000 split=4
+//vh:steps=3000000
 func VH_C11_Tags() {
 	tns := TypeAndNamespace(vU16("tns"))
 	n := vhSize("n", 1, 2)
@@ -502,7 +501,7 @@ func VH_C11_Namespaces() {
 
 // C11: point records.
 //
-//vh:steps=4000000 split=5
+//vh:steps=4000000
 func VH_C11_Points() {
 	nss := vhNamespaces()
 	pathPrimary := CombineTypeAndNamespace(b6.FeatureTypePath, nss.ForType(b6.FeatureTypePath))
@@ -563,7 +562,7 @@ func vhSameMultiset(a, b References, what string) {
 
 // C11: path records.
 //
-//vh:steps=4000000 split=5
+//vh:steps=4000000
 func VH_C11_Path() {
 	nss := vhNamespaces()
 	pointPrimary := CombineTypeAndNamespace(b6.FeatureTypePoint, nss[b6.FeatureTypePoint])
@@ -586,7 +585,7 @@ func VH_C11_Path() {
 
 // C11: area records (tags + geometry + relations the area belongs to).
 //
-//vh:steps=4000000 split=5
+//vh:steps=4000000
 func VH_C11_Area() {
 	nss := vhNamespaces()
 	pathPrimary := CombineTypeAndNamespace(b6.FeatureTypePath, nss.ForType(b6.FeatureTypePath))
@@ -615,7 +614,7 @@ func VH_C11_Area() {
 
 // C11: relation records.
 //
-//vh:steps=4000000 split=5
+//vh:steps=4000000
 func VH_C11_Relation() {
 	nss := vhNamespaces()
 	primaryType := b6.FeatureType(vChoice("primary", 2+2*vTier())) // point, path (quick); + area, relation
